@@ -20,6 +20,7 @@ MC_MaxExtra == 1
 MC_RandChoices == {1}
 MC_Msg == <<104,105>>
 MC_KChoices == {2}
+MC_Sweep == FALSE
 MC_EMIT == TRUE
 
 ====
